@@ -7,7 +7,7 @@ which is what writing with `ET.tostring` and re-parsing does to element data),
 
     from_etree (map esc (to_etree i)) = i        for every valid instance `i`.
 
-`Valid` (Lemmas/AggRound.lean) is the declarative validity of an instance, all the way down:
+`Valid` (Lemmas/NodeRT.lean) is the declarative validity of an instance, all the way down:
 class found by its tag, the instance dict holds exactly one well-typed value per supported
 non-repeated attribute in spec order, list members are instances of listed member classes, the
 class's own `validate_args` accepts the written form, and the class-level premises `ClsWF`
@@ -15,11 +15,12 @@ class's own `validate_args` accepts the written form, and the class-level premis
 block not interleaved) — which `Gen/WF.lean` discharges for the generated schema by kernel
 evaluation (`schema_clsWF`).
 
-PARTIAL: `NodeOk` requires `elementList = false` and `groom = ungroom = none`, i.e. the theorem covers
-instances built from the plain aggregates (381 of the 396 classes); the 12 `ElementList` classes and the
-3 classes with a `groom` rename (MFINFO, STOCKINFO, MAIL) are covered by the correspondence check only.
+COVERAGE: `NodeOk` covers plain aggregates, `ElementList`s (members = values of the list element's type) and the
+classes with a `groom` / `ungroom` rename (`GroomOk`: the two renames are inverse, around a non-repeated data element,
+and the rename's source tag is no child's tag) — every class of the generated schema satisfies these decidable
+premises except TAX1099INT_V100 (recorded finding: list block interleaved) and the abstract base `ElementList`.
 -/
-import OfxProofs.Lemmas.AggRound
+import OfxProofs.Lemmas.NodeRT
 
 namespace Ofx.Agg
 open Ofx
@@ -27,11 +28,19 @@ open Ofx
 /-- C01, aggregate layer: writing a valid instance to an element tree and converting the tree back —
     with any text map `esc` in between under which the converters still read their own output —
     returns the instance. -/
-theorem C01_agg_roundtrip_partial (S : Schema) (cv : Conv) (esc : Str → Str)
+theorem C01_agg_roundtrip (S : Schema) (cv : Conv) (esc : Str → Str)
     (Dom : Kind → Bool → Val → Prop) (laws : ConvLaws cv S.enums esc Dom) (i : Node)
     (hv : Valid S cv esc Dom i) :
     ∃ t, toEtree S cv i = .ok t ∧ fromEtree S cv (mapText esc t) = .ok i :=
   rt_node S cv esc Dom laws i hv
+
+/-- (the name under which earlier layers refer to it; it was partial in the classes covered until `ElementList`s and
+    the `groom` classes were added) -/
+theorem C01_agg_roundtrip_partial (S : Schema) (cv : Conv) (esc : Str → Str)
+    (Dom : Kind → Bool → Val → Prop) (laws : ConvLaws cv S.enums esc Dom) (i : Node)
+    (hv : Valid S cv esc Dom i) :
+    ∃ t, toEtree S cv i = .ok t ∧ fromEtree S cv (mapText esc t) = .ok i :=
+  C01_agg_roundtrip S cv esc Dom laws i hv
 
 /-- the written tree is rooted at the class's tag and carries no text of its own -/
 theorem C01_written_root (S : Schema) (cv : Conv) (ci : Nat) (f : List (Str × Node)) (i : List Node)
